@@ -20,7 +20,12 @@ PAYLOADS = {
     'tup': ['(u8, u32)'],
     'u8x2n': ['u8', 'u8'],   # named
     'u64': ['u64'],
+    # variants without any compared field: all ignored, `V()`, `V {}`
+    'ign': ['u8'],
+    'empt': [],
+    'empn': [],
 }
+NOCMP = ('ign', 'empt', 'empn')
 
 INNER = '''pub const KC: u8 = 7;
 pub const KI: i32 = -7;
@@ -55,11 +60,18 @@ def disc_text(d):
 
 def build(payloads, repr_, dspec, traits):
     variants = []
+    carrier = 'Ord' if 'Ord' in traits else 'PartialOrd'
     for i, pc in enumerate(payloads):
         tys = PAYLOADS[pc]
         d = dspec[i] if dspec and i < len(dspec) else None
         if tys is None:
             variants.append(V(VN[i], 'unit', [], disc=disc_text(d)))
+        elif pc == 'ign':
+            f = F('u8', **{carrier: {'ignore': True}})
+            f.code = 'i'
+            variants.append(V(VN[i], 'tuple', [f], disc=disc_text(d)))
+        elif pc == 'empn':
+            variants.append(V(VN[i], 'named', [], disc=disc_text(d)))
         elif pc == 'u8x2n':
             variants.append(V(VN[i], 'named', [F(tys[0], 'x'), F(tys[1], 'y')], disc=disc_text(d)))
         else:
@@ -71,7 +83,7 @@ def build(payloads, repr_, dspec, traits):
 def oracle(t, discs):
     arms = ''
     for v in t.variants:
-        terms = [f'a{i}.cmp(b{i})' for i in range(len(v.fields))]
+        terms = [f'a{i}.cmp(b{i})' for i, f in enumerate(v.fields) if getattr(f, 'code', 'p') != 'i']
         body = 'Ordering::Equal'
         if terms:
             body = terms[0] + ''.join(f'.then_with(|| {x})' for x in terms[1:])
@@ -107,7 +119,7 @@ def emit(modname, payloads, repr_, dspec, mode):
         body += 'impl PartialOrd for En { fn partial_cmp(&self, o: &Self) -> Option<Ordering> { Some(Ord::cmp(self, o)) } }\n'
     body += '#[repr(C)]\npub struct Wrap { pub e: En, pub tail: [u8; 4] }\n'
     multi = len(payloads) > 1
-    has_vals = any(PAYLOADS[p] not in (None, ['()']) for p in payloads)
+    has_vals = any(PAYLOADS[p] not in (None, ['()'], []) and p != 'ign' for p in payloads)
     covers = ['oracle equal']
     if multi or has_vals:
         covers += ['oracle less', 'oracle greater']
@@ -256,6 +268,8 @@ def quick_configs(seed):
             (['none', 'none', 'none'], 'isize', [-1, None, None]), (['none', 'none'], None, [256, 1]), (['none', 'none'], None, [65535, 2]),
             (['none', 'none', 'none'], None, [32767, -32768, 40000]), (['none'] * 5, None, [10, None, 3, None, 5]), (['none'] * 4, None, [5, 1, None, 3]),
             (['u8', 'none', 'bool', 'none', 'u8'], 'i16', [None, 7, None, 2, None]), (['none'] * 4, 'i8', [-3, None, -9, None]), (['none', 'none'], 'u32', [4294967295, 0]), (['none', 'none'], None, [2147483648, -1]),
+            (['ign', 'none', 'u8'], None, None), (['none', 'empt', 'none'], None, None), (['empn', 'ign', 'none'], None, None), (['ign', 'none', 'none'], 'u8', [5, None, None]),
+            (['empt', 'empn', 'u8'], 'i16', [3, None, None]), (['u8', 'ign', 'empt', 'none'], None, None),
             (['opt', 'opt'], None, None), (['bool', 'bool'], None, None), (['char', 'char', 'none'], None, None), (['none', 'none', 'none'], None, [2, 1, 0])]
     for w in want:
         core.append(w)
